@@ -402,4 +402,115 @@ theorem recvActOne_ok_iff (s : HState) (a : Act12) :
         | _ => simp [HState.mixHash, HState.mixKey, HState.decryptAndHash, hsOpen]
   · simp [hv]
 
+/-- `RecvActTwo`: same statement for the initiator, with its own ephemeral key in the ECDH. -/
+theorem recvActTwo_ok_iff (s : HState) (a : Act12) :
+    (recvActTwo s a).1 = .ok () ↔
+      a.ver = handshakeVersion ∧ ∃ x e pt, a.e = .valid x ∧ s.le = some e ∧
+        a.tag = .ct (.aead (.kdf2 s.ck (mkDh x e)) 0 (.hash s.h (.pub x)) pt) := by
+  obtain ⟨ver, e, tag⟩ := a
+  unfold recvActTwo recvAct12
+  by_cases hv : ver = handshakeVersion
+  · subst hv
+    cases e with
+    | invalid => simp
+    | valid x =>
+      cases hle : s.le with
+      | none => simp
+      | some e0 =>
+        cases tag with
+        | junk => simp [HState.mixHash, HState.mixKey, HState.decryptAndHash, hsOpen]
+        | ct t =>
+          cases t with
+          | aead k n ad pt =>
+            by_cases hc : k = Term.kdf2 s.ck (mkDh x e0) ∧ n = 0 ∧ ad = Term.hash s.h (Term.pub x)
+            · obtain ⟨rfl, rfl, rfl⟩ := hc
+              simp [HState.mixHash, HState.mixKey, HState.decryptAndHash, hsOpen]
+            · simp only [HState.mixHash, HState.mixKey, HState.decryptAndHash, hsOpen, hc, if_false, ne_eq,
+                not_true_eq_false]
+              simp only [not_and] at hc
+              simp
+              intro h1 h2 h3
+              exact hc h1 h2 h3
+          | _ => simp [HState.mixHash, HState.mixKey, HState.decryptAndHash, hsOpen]
+  · simp [hv]
+
+/-- `RecvActThree` completes exactly on the act three whose first part is the sender's static key
+    sealed under the current handshake key/nonce/digest and whose tag is the one determined by
+    that key, the responder's ephemeral key and the transcript. -/
+theorem recvActThree_ok_iff (s : HState) (a : Act3) :
+    (∃ keys, (recvActThree s a).1 = .ok keys) ↔
+      a.ver = handshakeVersion ∧ ∃ x e pt, s.le = some e ∧
+        a.c = .ct (.aead s.k s.n s.h (.pub x)) ∧
+        a.tag = .ct (.aead (.kdf2 s.ck (mkDh x e)) 0 (.hash s.h (.aead s.k s.n s.h (.pub x))) pt) := by
+  obtain ⟨ver, c, tag⟩ := a
+  unfold recvActThree
+  by_cases hv : ver ≠ handshakeVersion
+  · simp [hv]
+  have hv : ver = handshakeVersion := Decidable.not_not.mp hv
+  subst hv
+  cases c with
+  | junk => simp [HState.decryptAndHash, hsOpen]
+  | ct t =>
+    cases t with
+    | aead k n ad pt =>
+      by_cases hc : k = s.k ∧ n = s.n ∧ ad = s.h
+      · obtain ⟨rfl, rfl, rfl⟩ := hc
+        cases pt with
+        | pub x =>
+          cases hle : s.le with
+          | none => simp [HState.decryptAndHash, hsOpen, hle]
+          | some e =>
+            cases tag with
+            | junk => simp [HState.decryptAndHash, hsOpen, hle, HState.mixKey]
+            | ct t2 =>
+              cases t2 with
+              | aead k2 n2 ad2 pt2 =>
+                by_cases hc2 : k2 = Term.kdf2 s.ck (mkDh x e) ∧ n2 = 0 ∧
+                    ad2 = Term.hash s.h (Term.aead s.k s.n s.h (Term.pub x))
+                · obtain ⟨rfl, rfl, rfl⟩ := hc2
+                  simp [HState.decryptAndHash, hsOpen, hle, HState.mixKey]
+                · simp only [HState.decryptAndHash, hsOpen, hle, HState.mixKey, and_self, if_true, hc2, if_false]
+                  simp only [not_and] at hc2
+                  simp
+                  intro h1 h2 h3
+                  exact hc2 h1 h2 h3
+              | _ => simp [HState.decryptAndHash, hsOpen, hle, HState.mixKey]
+        | _ => simp [HState.decryptAndHash, hsOpen]
+      · simp only [HState.decryptAndHash, hsOpen, hc, if_false]
+        simp only [not_and] at hc
+        simp
+        intro x e _ h0 h1 h2
+        exact absurd h2 (hc h0 h1)
+    | _ => simp [HState.decryptAndHash, hsOpen]
+
+/-- whatever happens to a ciphertext handed to `Decrypt`, the nonce moves on (also on a MAC
+    failure): a failed read leaves the receiver one step ahead of the sender. -/
+theorem decrypt_always_advances (c : CipherState) (ad : Term) (bs : List WByte) :
+    (decrypt c ad bs).2 = c.advance := rfl
+
+/-- end to end: after a completed handshake, every message list sent by either side with any
+    flush pattern is delivered to the other side identical and in order, and what a side sends
+    is rejected when reflected back to it. -/
+theorem end_to_end (is ie target rs re : Nat) (ik rk : CipherState × CipherState)
+    (h : runHandshake is ie target rs re = some (ik, rk))
+    (steps : List SendStep) (hl : ∀ st ∈ steps, st.msg.len ≤ maxPayload) :
+    (∃ wire s', sendAll ⟨ik.1, [], []⟩ steps = some (wire, s') ∧
+        recvAll steps.length rk.2 wire = steps.map (·.msg)) ∧
+    (∃ wire s', sendAll ⟨rk.1, [], []⟩ steps = some (wire, s') ∧
+        recvAll steps.length ik.2 wire = steps.map (·.msg)) ∧
+    (∀ m w m' c' w', readMessage ik.2 (encodeMsg ik.1 m ++ w) ≠ (.ok m', c', w')) := by
+  obtain ⟨h1, h2, h3, _⟩ := handshake_keys_mirror is ie target rs re ik rk h
+  refine ⟨?_, ?_, ?_⟩
+  · obtain ⟨wire, s', a, b, _⟩ := stream_in_order ⟨ik.1, [], []⟩ rfl rfl steps hl
+    exact ⟨wire, s', a, by rw [← h1]; exact b⟩
+  · obtain ⟨wire, s', a, b, _⟩ := stream_in_order ⟨rk.1, [], []⟩ rfl rfl steps hl
+    exact ⟨wire, s', a, by rw [h2]; exact b⟩
+  · intro m w
+    exact foreign_record_rejected ik.2 ik.1 m w (Or.inr (Or.inl h3))
+
+example : (runHandshake 1 2 3 3 4).isSome := (handshake_iff_right_key 1 2 3 3 4).mpr rfl
+example : ¬ (runHandshake 1 2 5 3 4).isSome := fun h => by
+  have := (handshake_iff_right_key 1 2 5 3 4).mp h
+  omega
+
 end LndModel.C11
